@@ -392,20 +392,6 @@ func fieldNameFromSchema(name string) string {
 	return fieldName
 }
 
-var defaultTypeSystem schema.TypeSystem
-
-func init() {
-	defaultTypeSystem.Init()
-
-	defaultTypeSystem.Accumulate(schemaTypeBool)
-	defaultTypeSystem.Accumulate(schemaTypeInt)
-	defaultTypeSystem.Accumulate(schemaTypeFloat)
-	defaultTypeSystem.Accumulate(schemaTypeString)
-	defaultTypeSystem.Accumulate(schemaTypeBytes)
-	defaultTypeSystem.Accumulate(schemaTypeLink)
-	defaultTypeSystem.Accumulate(schemaTypeAny)
-}
-
 // TODO: support IPLD maps and unions in inferSchema
 
 // TODO: support bringing your own TypeSystem?
@@ -413,32 +399,50 @@ func init() {
 // TODO: we should probably avoid re-spawning the same types if the TypeSystem
 // has them, and test that that works as expected
 
-// inferSchema can build a schema from a Go type
+// inferSchema can build a schema from a Go type.
+//
+// Every call accumulates the types it infers into a fresh TypeSystem of its
+// own (seeded with fresh prelude types), rather than into package-level state:
+// inferring a schema for the same Go type repeatedly, or from several
+// goroutines at once, gives independent and equivalent results.
 func inferSchema(typ reflect.Type, level int) schema.Type {
+	ts := new(schema.TypeSystem)
+	ts.Init()
+	ts.Accumulate(schema.SpawnBool("Bool"))
+	ts.Accumulate(schema.SpawnInt("Int"))
+	ts.Accumulate(schema.SpawnFloat("Float"))
+	ts.Accumulate(schema.SpawnString("String"))
+	ts.Accumulate(schema.SpawnBytes("Bytes"))
+	ts.Accumulate(schema.SpawnLink("Link"))
+	ts.Accumulate(schema.SpawnAny("Any"))
+	return inferSchemaInto(ts, typ, level)
+}
+
+func inferSchemaInto(ts *schema.TypeSystem, typ reflect.Type, level int) schema.Type {
 	if level > maxRecursionLevel {
 		panic(fmt.Sprintf("inferSchema: refusing to recurse past %d levels", maxRecursionLevel))
 	}
 	switch typ.Kind() {
 	case reflect.Bool:
-		return schemaTypeBool
+		return ts.TypeByName("Bool")
 	case reflect.Int64:
-		return schemaTypeInt
+		return ts.TypeByName("Int")
 	case reflect.Float64:
-		return schemaTypeFloat
+		return ts.TypeByName("Float")
 	case reflect.String:
-		return schemaTypeString
+		return ts.TypeByName("String")
 	case reflect.Struct:
 		// these types must match exactly since we need symmetry of being able to
 		// get the values an also assign values to them
 		if typ == goTypeCid || typ == goTypeCidLink {
-			return schemaTypeLink
+			return ts.TypeByName("Link")
 		}
 
 		fieldsSchema := make([]schema.StructField, typ.NumField())
 		for i := range fieldsSchema {
 			field := typ.Field(i)
 			ftyp := field.Type
-			ftypSchema := inferSchema(ftyp, level+1)
+			ftypSchema := inferSchemaInto(ts, ftyp, level+1)
 			fieldsSchema[i] = schema.SpawnStructField(
 				field.Name, // TODO: allow configuring the name with tags
 				ftypSchema.Name(),
@@ -453,34 +457,34 @@ func inferSchema(typ reflect.Type, level int) schema.Type {
 			panic("TODO: anonymous composite types")
 		}
 		typSchema := schema.SpawnStruct(name, fieldsSchema, nil)
-		defaultTypeSystem.Accumulate(typSchema)
+		ts.Accumulate(typSchema)
 		return typSchema
 	case reflect.Slice:
 		if typ.Elem().Kind() == reflect.Uint8 {
 			// Special case for []byte.
-			return schemaTypeBytes
+			return ts.TypeByName("Bytes")
 		}
 
 		nullable := false
 		if typ.Elem().Kind() == reflect.Ptr {
 			nullable = true
 		}
-		etypSchema := inferSchema(typ.Elem(), level+1)
+		etypSchema := inferSchemaInto(ts, typ.Elem(), level+1)
 		name := typ.Name()
 		if name == "" {
 			name = "List_" + etypSchema.Name()
 		}
 		typSchema := schema.SpawnList(name, etypSchema.Name(), nullable)
-		defaultTypeSystem.Accumulate(typSchema)
+		ts.Accumulate(typSchema)
 		return typSchema
 	case reflect.Interface:
 		// these types must match exactly since we need symmetry of being able to
 		// get the values an also assign values to them
 		if typ == goTypeLink {
-			return schemaTypeLink
+			return ts.TypeByName("Link")
 		}
 		if typ == goTypeNode {
-			return schemaTypeAny
+			return ts.TypeByName("Any")
 		}
 		panic("bindnode: unable to infer from interface")
 	}
